@@ -94,7 +94,10 @@ def perform(call, P, M=None, R=None):
         return x.signed() if call["sf"] == 1 else x.unsigned()
     if a == "mset":
         loc = R[call["pos"]:call["pos"] + call["n"]]
-        M[loc] = P[call["j"] - 1]
+        v = P[call["j"] - 1]
+        if call["n"] != v.size:
+            v = v[call["lo"]:call["lo"] + call["n"]]
+        M[loc] = v
         return M(R[call["pos"]:call["pos"] + call["n"]])
     if a == "mget":
         return M(R)
